@@ -209,6 +209,49 @@ def instances(sk, pk, widths, tier):
                     yield deco, route, p, timetxt, meta
 
 
+def derive_from_canonicalised(base):
+    """A new property made with but() from one whose disjunctions have already been enumerated
+    (canonical_form, simple_events, aliases, str): in every disjunction of width >= 2 the first alternative is
+    replaced by a fresh event on another topic.  Returns None if nothing can be derived."""
+    import hpl.ast as A
+    from hpl.rewrite import canonical_form
+
+    try:
+        canonical_form(base)
+    except Exception:  # noqa: BLE001
+        pass
+    str(base)
+    changed = False
+
+    def swap_first(e, tag):
+        nonlocal changed
+        if e is None or not e.is_event_disjunction:
+            return e
+        list(e.simple_events())
+        e.aliases()
+        first = e.event1
+        if first.is_simple_event:
+            changed = True
+            return e.but(event1=first.but(name='zz' + tag))
+        inner = swap_first(first, tag)
+        return e.but(event1=inner)
+
+    sc, pt = base.scope, base.pattern
+    act, term = swap_first(sc.activator, 'a'), swap_first(sc.terminator, 't')
+    if act is not sc.activator:
+        sc = sc.but(activator=act)
+    if term is not sc.terminator:
+        sc = sc.but(terminator=term)
+    beh, trig = swap_first(pt.behaviour, 'b'), swap_first(pt.trigger, 'g')
+    if beh is not pt.behaviour:
+        pt = pt.but(behaviour=beh)
+    if trig is not pt.trigger:
+        pt = pt.but(trigger=trig)
+    if not changed:
+        return None
+    return base.but(scope=sc, pattern=pt)
+
+
 def realise(route, p, timetxt, meta):
     if route == 'parser':
         text = absyn.property_text(p, time=timetxt, meta=meta)
@@ -232,6 +275,16 @@ def run(unit):
             r.count('states')
             probs = check_property(obj, route, r)
             r.count('validated')
+            if route == 'parser' and deco in ('plain', 'preds', 'alias_act'):
+                # E4 depth 2: a property derived from the (already canonicalised) one
+                try:
+                    derived = derive_from_canonicalised(obj)
+                except Exception as e:  # noqa: BLE001
+                    derived = None
+                    r.notes[f'derivation rejected: {type(e).__name__}'] += 1
+                if derived is not None:
+                    r.count('states')
+                    probs += [(k + ' (property derived with but() from a canonicalised one)', d) for k, d in check_property(derived, 'derived', r)]
             for kind, detail in probs:
                 sig = kind if kind == PARTIAL else f'{kind} [{pk}, deco={deco}]'
                 r.violation(sig, {'scope': sk, 'pattern': pk, 'widths': widths, 'deco': deco, 'route': route, 'time': timetxt, 'meta': meta, 'text': absyn.property_text(p, time=timetxt, meta=meta)}, detail,
